@@ -105,6 +105,18 @@ fn weight(rng: &mut Rng) -> f32 {
     }
 }
 fn two_weights(rng: &mut Rng) -> (f32, f32) {
+    // every fourth draw: two different weights that are neighbours as f32 values (1 ulp apart), the pairs a
+    // tolerance-based comparison would confuse
+    if rng.chance(1, 4) {
+        let a = match rng.usize(4) {
+            0 => 1.0f32,
+            1 => 0.5,
+            2 => 1e-45,
+            _ => f32::from_bits(1 + rng.below(0x3f80_0000) as u32),
+        };
+        let b = f32::from_bits(a.to_bits() - 1);
+        return if rng.chance(1, 2) { (a, b) } else { (b, a) };
+    }
     loop {
         let (a, b) = (weight(rng), weight(rng));
         if a.to_bits() != b.to_bits() {
@@ -376,6 +388,60 @@ pub fn record(args: &Args, mut out: Out) -> usize {
                 cases.push(Case { items: vec![], via: "parse", ops: opsj.clone(), text_in: Some(parts.join(",")), reparse: true });
                 cases.push(Case { items, via: "collect", ops: opsj, text_in: None, reparse: true });
             }
+        }
+    }
+    if has("big") {
+        // the full range with a different weight for every combo, and with one odd combo in every rank pair:
+        // nothing is a complete rank pair, the text has the maximum number of tokens
+        let all: Vec<(usize, usize)> = (0..52).flat_map(|a| ((a + 1)..52).map(move |b| (a, b))).collect();
+        let distinct: Items = all.iter().enumerate().map(|(i, c)| (*c, (i as f32 + 1.0) / 2048.0)).collect();
+        cases.push(Case { items: distinct, via: "collect", ops: "[]".into(), text_in: None, reparse: true });
+        let mut odd: Items = vec![];
+        for r in 0..13 {
+            for (i, c) in pocket(r).into_iter().enumerate() {
+                odd.push((c, if i == 3 { 0.25 } else { 0.5 }));
+            }
+            for k in (r + 1)..13 {
+                for (i, c) in suited(r, k).into_iter().enumerate() {
+                    odd.push((c, if i == 2 { 0.25 } else { 0.5 }));
+                }
+                for (i, c) in ofsuit(r, k).into_iter().enumerate() {
+                    odd.push((c, if i == 7 { 0.25 } else { 0.5 }));
+                }
+            }
+        }
+        cases.push(Case { items: odd, via: "collect", ops: "[]".into(), text_in: None, reparse: true });
+        // ranges whose number of combos sits around a multiple of 256, made of complete rank pairs plus a few extras
+        for target in [252usize, 255, 256, 257, 259, 260, 511, 512, 513, 515, 768, 1024, 1027, 1280, 1283, 1326] {
+            let mut rps: Vec<(usize, usize, usize)> = vec![];
+            for r in 0..13 {
+                rps.push((0, r, r));
+                for k in (r + 1)..13 {
+                    rps.push((1, r, k));
+                    rps.push((2, r, k));
+                }
+            }
+            rng.shuffle(&mut rps);
+            let mut items: Items = vec![];
+            let w = weight(&mut rng);
+            let mut rest: Vec<(usize, usize)> = vec![];
+            for (kind, h, k) in rps {
+                let cs = cell_combos(kind, h, k);
+                if items.len() + cs.len() <= target {
+                    for c in cs {
+                        items.push((c, w));
+                    }
+                } else {
+                    rest.extend(cs);
+                }
+            }
+            let mut i = 0;
+            while items.len() < target && i < rest.len() {
+                items.push((rest[i], 0.125));
+                i += 2; // every other combo of the remaining rank pairs: leftovers, never a complete pair
+            }
+            rng.shuffle(&mut items);
+            cases.push(Case { items, via: "collect", ops: "[]".into(), text_in: None, reparse: true });
         }
     }
     if has("negzero") {
